@@ -1,7 +1,7 @@
 """Adapters for USLP primary headers, truncated headers and transfer frames."""
 from __future__ import annotations
 
-from .core import outcome, octs, after_pack
+from .core import outcome, octs, after_pack, rxbuf
 from .probe import decode_other
 
 
@@ -38,11 +38,19 @@ def op_hdr_rt(a):
     h = a["h"]
 
     def run():
+        from .probe import twin
+
+        def _mut(t):
+            t.pack()
+            t.scid, t.vcid, t.map_id = (t.scid + 1) % 65536, (t.vcid + 1) % 64, (t.map_id + 1) % 16
+            if not t.truncated():
+                t.frame_len, t.vcf_count_len, t.vcf_count = (t.frame_len + 1) % 65536, 1, 7
+        twin(lambda: mk_hdr(h), _mut)
         o = mk_hdr(h)
         raw = o.pack()
 
         def rest():
-            d = _hdr_cls(h["trunc"]).unpack(bytes(raw) + bytes(a["sfx"]))
+            d = _hdr_cls(h["trunc"]).unpack(rxbuf(raw, a["sfx"]))
             decode_other(f"uslp.hdr:{int(bool(h['trunc']))}", _hdr_cls(h["trunc"]).unpack)
             return {"octets": octs(raw), "len": o.len(), "dec": proj_hdr(d), "dlen": d.len(), "repack": octs(d.pack()),
                     "htype": int(determine_header_type(bytes(raw)) == HeaderType.TRUNCATED)}
